@@ -925,4 +925,115 @@ theorem runCase_refines {n k : Nat} (hn : 0 < n) (hcap : Cap n) (ops : List Op)
   rw [e]
   exact observe_refines hcap hr hl ho
 
+/-! ### wave 4: the array-backed twins the driver executes are the list originals -/
+
+theorem test_eq_testA (b : Bits) : test b = testA b.toArray := by
+  funext x
+  simp only [test, testA, List.getElem?_toArray]
+
+theorem display_eq_displayA (b : Bits) : display b = displayA b.toArray := by
+  simp only [display, displayA, test_eq_testA, List.size_toArray]
+
+theorem getW_eq_getWA (b : Bits) : getW b = getWA b.toArray := by
+  funext i
+  simp only [getW, getWA, List.getElem?_toArray]
+
+theorem skipLoop_eq_A (b : Bits) (lim fuel idx : Nat) : skipLoop b lim fuel idx = skipLoopA b.toArray lim fuel idx := by
+  induction fuel generalizing idx with
+  | zero => rfl
+  | succ f ih =>
+    simp only [skipLoop, skipLoopA, getW_eq_getWA]
+    split
+    · cases getWA b.toArray (idx / 64) <;> try rfl
+      rename_i w
+      show (if w >>> (idx % 64) = 0 then _ else _) = (if w >>> (idx % 64) = 0 then _ else _)
+      split
+      · cases ckU (idx + 64) <;> try rfl
+        exact ih _
+      · rfl
+    · rfl
+
+theorem next_eq_A (b : Bits) (idx : Nat) : next b idx = nextA b.toArray idx := by
+  simp only [next, nextA, skipLoop_eq_A, getW_eq_getWA, List.size_toArray]
+
+theorem collect_eq_A (b : Bits) (fuel idx : Nat) : collect b fuel idx = collectA b.toArray fuel idx := by
+  induction fuel generalizing idx with
+  | zero => rfl
+  | succ f ih =>
+    simp only [collect, collectA, next_eq_A]
+    cases nextA b.toArray idx <;> try rfl
+    rename_i r
+    obtain ⟨o, i'⟩ := r
+    cases o <;> try rfl
+    rename_i v
+    show (match collect b f i' with | Except.error e => Except.error e | Except.ok vs => Except.ok (v :: vs)) = _
+    rw [ih]
+    rfl
+
+theorem advance_eq_A (b : Bits) (k idx : Nat) : advance b k idx = advanceA b.toArray k idx := by
+  induction k generalizing idx with
+  | zero => rfl
+  | succ k ih =>
+    simp only [advance, advanceA, next_eq_A]
+    cases nextA b.toArray idx <;> try rfl
+    exact ih _
+
+theorem restAfter_eq_A (b : Bits) : restAfter b = restAfterA b.toArray := by
+  funext k
+  simp only [restAfter, restAfterA, advance_eq_A, collect_eq_A, List.size_toArray]
+
+theorem iterBits_eq_A (b : Bits) : iterBits b = collectA b.toArray (b.length * 64 + 1) 0 := by
+  simp only [iterBits, collect_eq_A]
+
+/-- The array-backed observation of a register is the list one. -/
+theorem observeReg_eq_fast : @observeReg = @observeRegFast := by
+  funext n b
+  simp only [observeReg, observeRegFast, debug, display_eq_displayA, test_eq_testA, iterBits_eq_A, restAfter_eq_A, List.size_toArray]
+  cases (List.range (64 * n)).mapM (testA b.toArray) <;> try rfl
+  cases count b <;> try rfl
+  cases collectA b.toArray (b.length * 64 + 1) 0 <;> try rfl
+  cases displayA b.toArray <;> rfl
+
+theorem ofWords_eq_fast : @Spec.ofWords = @ofWordsA := by
+  funext ws
+  simp [Spec.ofWords, ofWordsA]
+
+theorem loadBits_eq_fast (n : Nat) (ws : List Nat) : loadBits n ws = loadBitsFast n ws := by
+  simp only [loadBits, loadBitsFast, ofWords_eq_fast]
+
+theorem step_eq_fast (n : Nat) (s : St) (op : Op) : step n s op = stepFast n s op := by
+  cases op <;> first
+    | rfl
+    | simp only [step, stepFast, loadBits_eq_fast, observeReg_eq_fast]
+
+theorem run_eq_fast (n : Nat) (s : St) (ops : List Op) : run n s ops = runFast n s ops := by
+  induction ops generalizing s with
+  | nil => rfl
+  | cons op ops ih =>
+    simp only [run, runFast, step_eq_fast]
+    cases stepFast n s op <;> try rfl
+    exact ih _
+
+theorem observe_eq_fast (n : Nat) (s : St) : observe n s = observeFast n s := by
+  simp only [observe, observeFast, observeReg_eq_fast]
+
+/-- The driver's model side: `runCaseFast` is `runCase`. -/
+theorem runCaseFast_eq (n k : Nat) (ops : List Op) : runCaseFast n k ops = runCase n k ops := by
+  simp only [runCase, runCaseFast, run_eq_fast]
+  cases runFast n ⟨List.replicate k (new n), [], []⟩ ops <;> try rfl
+  exact (observe_eq_fast n _).symm
+
+theorem specStep_eq_fast (s : SpecSt) (op : Op) : specStep s op = specStepFast s op := by
+  cases op <;> first
+    | rfl
+    | simp only [specStep, specStepFast, ofWords_eq_fast]
+
+theorem specRun_eq_fast (s : SpecSt) (ops : List Op) : specRun s ops = specRunFast s ops := by
+  have : specStep = specStepFast := by funext s op; exact specStep_eq_fast s op
+  simp only [specRun, specRunFast, this]
+
+/-- The driver's specification side: `specRunCaseFast` is `specRunCase`. -/
+theorem specRunCaseFast_eq (n k : Nat) (ops : List Op) : specRunCaseFast n k ops = specRunCase n k ops := by
+  simp only [specRunCase, specRunCaseFast, specRun_eq_fast]
+
 end Rlib.Bitset
